@@ -182,7 +182,11 @@ def doActionCore (w : World) (mid : Nat) (batch : Option Txn) (a : Action) : Wor
   | .cancel tg red force => direct ((w.order! (tg.resolve w)).client.getD ((w.clients.head?.map (·.id)).getD 0)) fun w t => w.txnCancel t (tg.resolve w) red force
   | .update tg pers force => direct ((w.order! (tg.resolve w)).client.getD ((w.clients.head?.map (·.id)).getD 0)) fun w t => w.txnUpdate t (tg.resolve w) pers force
   | .replace tg price v force => direct ((w.order! (tg.resolve w)).client.getD ((w.clients.head?.map (·.id)).getD 0)) fun w t => w.txnReplace t (tg.resolve w) price v force
-  | .batchBegin client => (w, some ({ market := mid, client := client } : Txn), "begin")
+  | .batchBegin client =>
+    -- (a script that opens a block while one is open leaves the first one first: `with` blocks are closed in the order they were opened)
+    match batch with
+    | some t => (w.txnExit t, some ({ market := mid, client := client } : Txn), "begin")
+    | none => (w, some ({ market := mid, client := client } : Txn), "begin")
   | .batchExecute =>
     match batch with
     | some t => let (w, t) := w.txnExecute t; (w, some t, "executed")
